@@ -627,8 +627,10 @@ def protocol_body(prog, cls, name, _depth=0):
                 return protocol_body(prog, cls, c.func.attr, _depth + 1)
     # third form: locals are saved, the work is one call of self._helper(<own parameters>) inside try, and the
     # finally clause restores what was saved
-    if body and isinstance(body[-1], ast.Try) and body[-1].finalbody and not body[-1].handlers and len(body[-1].body) == 1 \
-            and _depth < 2:
+    # (handlers that put saved values back and raise again - the last statement is a bare `raise` - change nothing on
+    # the path on which the helper succeeds)
+    if body and isinstance(body[-1], ast.Try) and body[-1].finalbody and len(body[-1].body) == 1 and _depth < 2 \
+            and all(h.body and isinstance(h.body[-1], ast.Raise) and h.body[-1].exc is None for h in body[-1].handlers):
         pre, tr = body[:-1], body[-1]
         st = tr.body[0]
         c = st.value if isinstance(st, (ast.Expr, ast.Return)) else None
